@@ -29,6 +29,10 @@ def signature(f):
 
 def run(ctx):
     ctx.tlc("MC_Collide", "MC_Collide", replay="repro", coverage=False)
+    # programs that are (or are not) rejected for a loop - inheritance, aliases, containment - with one interface / alias /
+    # type per file: the verdict does not depend on which file is read first (and no order crashes)
+    for fam in ("inherit", "alias", "contain"):
+        ctx.tlc("MC_CyclesGen", "MC_CyclesGen_%s_files" % fam, replay="repro", coverage=False, label="MC_CyclesGen_%s_files" % fam)
     ctx.tlc("MC_Collide", "MC_Collide_asbuilt", must_pass=False, label="MC_Collide_asbuilt(documents the pinned table)", coverage=False)
     n = 90 if ctx.quick else 3000
     os_env = {"VERIF_REPRO_RERUNS": "3" if ctx.quick else "5"}
